@@ -48,3 +48,6 @@ void ob_c04_take_negctl(const std::array<size_t,2>& shape_, const std::array<int
                     template void ob_c04_take<K,R,M,A,true>(const mk_t<K,size_t,R>&, const std::array<int,M>&, const mk_t<K,size_t,R>&, int, int);
 #define TKK(R,M,A) TK(k_std,R,M,A) TK(k_utl,R,M,A)
 TKK(1,3,0) TKK(1,2,-1) TKK(2,3,0) TKK(2,3,1) TKK(2,2,-1) TKK(2,2,-2) TKK(3,2,0) TKK(3,4,1) TKK(3,3,2) TKK(3,3,-1) TKK(3,2,-3)
+#ifdef VERIF_THOROUGH
+TKK(4,3,0) TKK(4,2,1) TKK(4,5,2) TKK(4,3,3) TKK(4,3,-1) TKK(4,2,-4) TKK(3,5,-2) TKK(2,4,0)
+#endif
